@@ -119,6 +119,7 @@ class AltFilter(sansldap.LDAPFilter):
 
 
 EDGE_TAGS = (30, 31, 32, 127, 128)  # around the low/high tag number form (31) and the 1/2-octet high form (127/128)
+WIDE_TAGS = (1280, 2048)  # congruent to the documented example id 1024 modulo 256 / modulo 1024
 
 
 def _mk_edge_filter(n):
@@ -157,7 +158,7 @@ def _mk_edge_auth(n):
     return EdgeAuth
 
 
-EDGE_FILTERS = {n: _mk_edge_filter(n) for n in EDGE_TAGS}
+EDGE_FILTERS = {n: _mk_edge_filter(n) for n in EDGE_TAGS + WIDE_TAGS}
 EDGE_AUTHS = {n: _mk_edge_auth(n) for n in EDGE_TAGS}
 
 
@@ -186,6 +187,21 @@ REGISTER_METHOD = {
 SLOT = {"SubControl": "subcontrol", "CustomAuth": "auth", "AltAuth": "auth", "CustomControl": "control", "AltControl": "control",
         "CustomFilter": "filter", "AltFilter": "filter"}
 
+@dataclasses.dataclass(frozen=True)
+class SubEquality(sansldap.FilterEquality):
+    """An application filter that derives from a built-in attribute-value-assertion filter, reuses its pack/unpack and
+    only claims another choice id."""
+
+    filter_id: int = dataclasses.field(init=False, repr=False, default=1025)
+
+
+BY_NAME["SubEquality"] = SubEquality
+REGISTER_METHOD["SubEquality"] = "register_filter"
+SLOT["SubEquality"] = "filter1025"
+for _n in WIDE_TAGS:
+    BY_NAME["EdgeFilter%d" % _n] = EDGE_FILTERS[_n]
+    REGISTER_METHOD["EdgeFilter%d" % _n] = "register_filter"
+    SLOT["EdgeFilter%d" % _n] = "filter%d" % _n
 for _n in EDGE_TAGS:
     BY_NAME["EdgeFilter%d" % _n] = EDGE_FILTERS[_n]
     BY_NAME["EdgeAuth%d" % _n] = EDGE_AUTHS[_n]
